@@ -65,11 +65,16 @@ def run(c):
     c.rule = ("case i drives factory item (i mod #items) of the four generated packages (every type is visited): FillRandom (or a "
               "reflection filler for the tl2gen-1.4 packages) plus boundary enrichment (string lengths 0..5, 250..258, 300, 1021; quotes, "
               "NUL, multi-byte UTF-8 or raw bytes; extreme ints; -0, Inf, NaN payloads); ops = decode of the bare and boxed Go bytes with "
-              "trailing bytes, two truncations, three one-byte mutations, the function result; every 8th case is a frame case (empty, "
-              "incompressible, compressible, boundary, damaged frames). Non-trivial = encoding longer than 8 bytes, or a mutant the "
+              "trailing bytes, two truncations, three one-byte mutations, the function result, and the decode of an empty/mixed value B by "
+              "a string- and a []byte-variant object that has just read a fully populated value A (reused destination); every 16th case "
+              "is a frame case (empty, incompressible, compressible, equal-size, boundary, damaged frames), every other 16th a TL2 case "
+              "(size codec at every form boundary and random sizes, arbitrary headers, strings of boundary lengths, and a sweep of one "
+              "planted string through a generated TL2 type so that every enclosing object/vector/dictionary body takes each size "
+              "around 254 and 65790 exactly). Non-trivial = encoding longer than 8 bytes, or a mutant the "
               "reader accepted, or a frame that was really compressed; distinct by op-sequence hash")
     c.assumptions += ["lz4 (github.com/pierrec/lz4) is an abstract inverse pair in the theorems; in the correspondence its observed results are inputs of the model",
-                      "TL2 and JSON codecs are not modelled: Go-side round-trip oracle only",
+                      "the generated TL2 object codecs and JSON are not modelled: Go-side round-trip oracle only (the TL2 size codec and TL2 strings are modelled and proved)",
+                      "reading into a used destination: the model's decode is a function of the bytes, so independence of the destination's previous content is an obligation on the correspondence and the Go oracle, not a theorem",
                       "basictl.CheckLengthSanity is not modelled (only changes which error is returned)",
                       "values are compared through their canonical TL1 bytes (sound by theorem tl1_injective)",
                       "10 MiB payloads are checked by the Go oracle only (too long for the list-based model driver)"]
@@ -104,9 +109,11 @@ META = {
     "text": ("tl1_roundtrip: for every descriptor, nat-argument environment, well-typed value and trailing bytes, ReadTL1(WriteTL1 v ++ rest) = (v, rest); "
              "corollaries boxed round trip, injectivity, prefix-freeness; instantiated for every type of the current schema (tags re-checked "
              "distinct by evaluation). frame_roundtrip for every payload within MaxUncompressedBucketSize and any inverse lz4 pair; undersized / "
-             "oversized frames rejected, output length always equals the announced size. The Lean codec is tied to the generated Go by decoding "
+             "oversized frames rejected, output length always equals the announced size. tl2_size_roundtrip / tl2_string_roundtrip: the TL2 size "
+             "codec (three forms) and TL2 strings round-trip for every size up to MaxInt, tied to basictl2.go at every form boundary. The Lean codec is tied to the generated Go by decoding "
              "and re-encoding the Go bytes of every factory item (valid, truncated and mutated) and comparing accept/reject, consumed length and bytes."),
-    "note": ("Partial: TL2 and JSON are checked only by the Go-side oracle (write, read back, compare canonical TL1 bytes) for every type; the "
+    "note": ("Partial: the generated TL2 object codecs and JSON are checked only by the Go-side oracle (write, read back, compare canonical TL1 bytes) for every type, "
+             "including bodies of exactly every size around the TL2 form boundaries and reads into reused objects; the "
              "bytes/string-variant clause is oracle-only (both variants are the same descriptor in the model). The model omits "
              "CheckLengthSanity. Trusted: Lean kernel, tools/tl2lean.py (its output is what the correspondence tests against the Go code), "
              "the hand transcription tools/c14_barsic.tl for the barsic package (no .tl in the repo), lz4 library."),
